@@ -46,6 +46,34 @@ macro_rules! on_mdk {
 pub enum BackendKind {
     Mem,
     Sql,
+    /// SQLCipher with a caller-supplied key (derived from the path, see `key_for_path`)
+    SqlKey,
+    /// SQLCipher with a key managed through the (mock) keyring
+    SqlKeyring,
+}
+
+impl BackendKind {
+    pub fn is_sql(&self) -> bool {
+        !matches!(self, BackendKind::Mem)
+    }
+}
+
+pub fn key_for_path(p: &std::path::Path) -> [u8; 32] {
+    let mut h = Sha256::new();
+    h.update(b"vcheck-db-key");
+    h.update(p.to_string_lossy().as_bytes());
+    h.finalize().into()
+}
+
+pub const KEYRING_SERVICE: &str = "vcheck.mdk.verif";
+
+pub fn ensure_mock_keyring() {
+    static ONCE: std::sync::Once = std::sync::Once::new();
+    ONCE.call_once(|| {
+        if let Ok(store) = keyring_core::mock::Store::new() {
+            keyring_core::set_default_store(store);
+        }
+    });
 }
 
 #[derive(Debug, Default)]
@@ -563,9 +591,17 @@ pub fn open_client_mdk(
                 .with_callback(recorder)
                 .build(),
         ),
-        BackendKind::Sql => {
-            let st = MdkSqliteStorage::new_unencrypted(db_path.expect("sql client has a path"))
-                .map_err(|e| format!("open sqlite: {e}"))?;
+        BackendKind::Sql | BackendKind::SqlKey | BackendKind::SqlKeyring => {
+            let path = db_path.expect("sql client has a path");
+            let st = match kind {
+                BackendKind::Sql => MdkSqliteStorage::new_unencrypted(path),
+                BackendKind::SqlKey => MdkSqliteStorage::new_with_key(path, mdk_sqlite_storage::EncryptionConfig::new(key_for_path(path))),
+                _ => {
+                    ensure_mock_keyring();
+                    MdkSqliteStorage::new(path, KEYRING_SERVICE, &path.to_string_lossy())
+                }
+            }
+            .map_err(|e| format!("open sqlite: {e}"))?;
             AnyMdk::Sql(
                 MDK::builder(st)
                     .with_config(cfg.to_mdk())
@@ -613,7 +649,7 @@ impl World {
             let keys = Keys::generate();
             let db_path = match kind {
                 BackendKind::Mem => None,
-                BackendKind::Sql => Some(dir.0.join(format!("client{i}.db"))),
+                _ => Some(dir.0.join(format!("client{i}.db"))),
             };
             let recorder = Arc::new(RollbackRecorder::default());
             let mdk = open_client_mdk(kind, db_path.as_ref(), &setup.cfg, recorder.clone())?;
@@ -1750,7 +1786,7 @@ impl World {
     }
 
     pub fn restart(&mut self, m: usize) -> Result<(), Failure> {
-        if self.clients[m].kind != BackendKind::Sql {
+        if !self.clients[m].kind.is_sql() {
             return Ok(());
         }
         let before = self.full_all(m).iter().map(|f| f.without_clock()).collect::<Vec<_>>();
